@@ -301,9 +301,11 @@ static void record_table01(Trace& T, Rng& g, int N)
 			v *= fd;
 	T.emit({{"e", "Reset"}, {"N", N}, {"dim", 1}});
 	const int M = 64;
+	std::vector<double> midv(N - 1), knotr(N - 1);
 	for(int i = 0; i < N - 1; i++)
 	{
 		double a = t.x[i], b = t.x[i + 1], h = b - a, ya = t.y[i], yb = t.y[i + 1];
+		midv[i] = I.Interpolate(a + 0.5 * h);
 		double scale = std::max({std::fabs(ya), std::fabs(yb), 1e-300});
 		double slack = 64 * EPS * scale;
 		int sg		 = sgn(yb - ya);
@@ -363,6 +365,7 @@ static void record_table01(Trace& T, Rng& g, int N)
 		long dq2 = quant((double)(I.Derivative(xq, 2) * (long double)h * h - out[1]), unit);
 		long dq3 = quant((double)(I.Derivative(xq, 3) * (long double)h * h * h - out[2]), unit);
 		long dq0 = (I.Derivative(xq, 0) == I.Interpolate(xq) && I.Derivative(xq, 5) == 0.0) ? 0 : 2;
+		knotr[i] = kr;
 		T.emit({{"e", "Interval"}, {"i", i + 1}, {"sg", sg}, {"nviol", nviol}, {"nout", nout}, {"kl", ulpdist(kl, ya, 1000)},
 				{"kr", quant(kr - yb, slack)}, {"c1q", c1q}, {"dq0", dq0}, {"dq1", dq1}, {"dq2", dq2}, {"dq3", dq3}});
 	}
@@ -377,6 +380,31 @@ static void record_table01(Trace& T, Rng& g, int N)
 		// inside the zone the curve may move by at most ~ 3 |secant| * 1% of the interval
 		double bound = 0.2 * std::fabs(yn - ye) + 64 * EPS * std::max(std::fabs(ye), std::fabs(yn)) + 1e-300;
 		T.emit({{"e", "Zone"}, {"end", end}, {"q", quant(v - ye, bound)}});
+	}
+	// the same curve whatever the order of the queries: revisit intervals after priming the object elsewhere (far jumps, short correlated
+	// steps, jumps to the first and last intervals); every value must be the one observed in the sequential pass, bit for bit
+	{
+		long nq = 0, ndiff = 0, nbad = 0;
+		int R = std::min(400, 6 * N);
+		for(int r = 0; r < R; r++)
+		{
+			int s1 = (int)g.range(0, N - 2), t1 = g.coin(0.3) ? N - 2 : (g.coin(0.2) ? 0 : (int)g.range(0, N - 2));
+			intent("revisit");
+			I.Interpolate(t.x[s1] + 0.5 * (t.x[s1 + 1] - t.x[s1]));
+			int s2 = std::min(N - 2, s1 + (int)g.range(0, 2));
+			I.Interpolate(t.x[s2] + 0.25 * (t.x[s2 + 1] - t.x[s2]));
+			double v = I.Interpolate(t.x[t1] + 0.5 * (t.x[t1 + 1] - t.x[t1]));
+			double k = I.Interpolate(t.x[t1 + 1]);
+			nq += 2;
+			if(bits(v) != bits(midv[t1]))
+				ndiff++;
+			if(bits(k) != bits(knotr[t1]))
+				ndiff++;
+			double slack = 64 * EPS * std::max({std::fabs(t.y[t1]), std::fabs(t.y[t1 + 1]), 1e-300});
+			if(!(std::fabs(k - t.y[t1 + 1]) <= slack))
+				nbad++;
+		}
+		T.emit({{"e", "Revisit"}, {"nq", nq}, {"ndiff", ndiff}, {"nbad", nbad}});
 	}
 }
 
